@@ -47,6 +47,12 @@ class Database(ImpExp):
     @staticmethod
     def branch_key(*args):
         """Construct a key using a list of names"""
+        for arg in args[:-1]:
+            if arg.endswith(DIVIDER[0]):
+                raise ValueError("Identifier must not end with the divider character")
+        for arg in args:
+            if DIVIDER in arg:
+                raise ValueError("Identifier must not contain the divider")
         return DIVIDER.join(args)
 
     @staticmethod
